@@ -279,6 +279,9 @@ func runC13(c runCfg) error {
 	// spec-file handler installed or not
 	if c.Cases == "" {
 		contents := []string{c13Doc, strings.ReplaceAll(c13Doc, "\n", "\r\n"), "a\\b", "`\"\\\n\r$a", "{\"openapi\":\"3.0.0\",\"x\":\"\\t\"}", "x\ny`z`\n"}
+		// text that a formatting, templating or escaping step between the constant and the wire would alter
+		contents = append(contents, "description: 15% off or 100%d free %s %v %% %!x\n", "{{ .BasePath }} {{/* x */}} ${HOME} $(id) \\u0041 &amp; <b>\n",
+			strings.Repeat("long line ", 2000)+"\n", "tabs\tand\x0bvt\x0cff and \x7f del and \u00a0 nbsp \u2028 ls\n")
 		if c.Thorough {
 			for i := 0; i < 40 && i < len(lines); i++ {
 				f := strings.Fields(lines[(i*97)%len(lines)])
